@@ -286,6 +286,13 @@ class Interp:
             if not isinstance(c, (dict, list)):
                 raise Unsupported(target, "(subscript store on a non-container)")
             c[k] = v
+        elif isinstance(target, ast.Attribute):
+            o = self.ev(target.value)
+            if not isinstance(o, Obj):
+                raise Unsupported(target, "(attribute store on a non-model object)")
+            if target.attr not in o._attrs:
+                raise Unsupported(target, f"(model object {o._kind} has no field {target.attr})")
+            o._attrs[target.attr] = v
         else:
             raise Unsupported(target, "(assignment target)")
 
@@ -539,7 +546,12 @@ class Interp:
                         return list({"enumerate": enumerate, "zip": zip, "range": range}[nm](*args))
                     if nm in ("any", "all"):
                         return {"any": any, "all": all}[nm](self.truth(x) for x in args[0])
-                    return {"len": len, "set": set, "list": list, "tuple": tuple, "bool": self.truth, "int": int, "dict": dict, "frozenset": frozenset}[nm](*args)
+                    if nm == "int":
+                        try:
+                            return int(*args)
+                        except ValueError:
+                            raise PyRaise("ValueError", None)
+                    return {"len": len, "set": set, "list": list, "tuple": tuple, "bool": self.truth, "dict": dict, "frozenset": frozenset}[nm](*args)
                 except (TypeError, ValueError):
                     raise Unsupported(e, "(builtin on a model value)")
             if (nm in self.env and (callable(self.env[nm]) or isinstance(self.env[nm], Obj))) or (nm not in self.env and nm in self.globals and (callable(self.globals[nm]) or isinstance(self.globals[nm], Obj))):
@@ -614,7 +626,9 @@ class Interp:
                 return getattr(recv, meth)(*args)
             if isinstance(recv, str) and meth == "join" and len(args) == 1 and isinstance(args[0], (list, tuple)) and all(isinstance(x, str) for x in args[0]):
                 return recv.join(args[0])
-            if isinstance(recv, str) and meth in ("join", "format"):
+            if isinstance(recv, str) and meth == "format":
+                return Opaque("str:" + recv)
+            if isinstance(recv, str) and meth == "join":
                 return Opaque("str")
             if isinstance(recv, (Opaque, Sym)):
                 return Opaque(meth)
